@@ -74,6 +74,9 @@ func c02Programs(ctx *Ctx) [][]tStmt {
 		{{Op: "outE"}, {Op: "out"}, {Op: "path"}},
 		{{Op: "outE"}, {Op: "hasLabel", Strs: []string{"knows"}}, {Op: "out"}},
 		{{Op: "both"}, {Op: "count"}}, {{Op: "bothE"}},
+		// a mark read only under not() / inside or()
+		{{Op: "as", Str: "m"}, {Op: "out"}, {Op: "has", Has: &hExpr{Kind: "not", Es: []hExpr{*mname}}}},
+		{{Op: "as", Str: "m"}, {Op: "outE"}, {Op: "has", Has: &hExpr{Kind: "or", Es: []hExpr{{Kind: "not", Es: []hExpr{*mname}}, *w2}}}, {Op: "count"}},
 		// a mark name taken twice, read in between and afterwards
 		{{Op: "as", Str: "m"}, {Op: "out"}, {Op: "has", Has: mname}, {Op: "out"}, {Op: "as", Str: "m"}, {Op: "count"}},
 		{{Op: "as", Str: "m"}, {Op: "out"}, {Op: "render", Tpl: map[string]interface{}{"n": "$m.name"}}, {Op: "as", Str: "m"}},
